@@ -296,7 +296,12 @@ func main() {
 	}
 	r := hx.NewRng(*seed)
 	d := time.Duration(*ms) * time.Millisecond
-	for _, f := range []func(*hx.Rng, time.Duration) string{stressQueue, stressWheel, stressWaitClose, stressAtomics, stressCache, stressAnts, stressTaskx} {
+	fs := []func(*hx.Rng, time.Duration) string{stressQueue, stressWheel, stressWaitClose, stressAtomics, stressCache, stressAnts, stressTaskx}
+	if hooked { // -tags verif: delay injection through the repository's scheduling-point hooks
+		loomJitter(*seed)
+		fs = []func(*hx.Rng, time.Duration) string{stressAntsParked, stressQueue, stressWheel, stressAtomics, stressAnts}
+	}
+	for _, f := range fs {
 		fmt.Println(f(r, d))
 	}
 }
